@@ -18,5 +18,6 @@ Beh == [n |-> Cardinality(Parties), byz |-> SetSeq(Byz),
                  [i \in 1..Len(D) |-> <<D[i] \div 100, D[i] % 100, byz1[<<D[i] \div 100, D[i] % 100>>]>>],
         r2 |-> LET D == SetSeq({x[1] * 100 + x[2] : x \in Byz \X Honest}) IN
                  [i \in 1..Len(D) |-> [e |-> D[i] \div 100, p |-> D[i] % 100, m |-> MapJ(ByzEcho(D[i] \div 100, D[i] % 100))]]]
-PrintBehaviour == round = 0 => PrintT(<<"BEHAVIOUR", ToJson(Beh)>>)
+CONSTANT PrintMod      \* print one adversary out of PrintMod (1 = all of them)
+PrintBehaviour == (round = 0 /\ (PrintMod = 1 \/ RandomElement(1..PrintMod) = 1)) => PrintT(<<"BEHAVIOUR", ToJson(Beh)>>)
 =============================================================================
